@@ -48,9 +48,9 @@ class Holder:
         self.cons = [sqlite3.connect(os.path.join(d, 'cache.db'), isolation_level=None, timeout=0) for d in dirs]
         self.held = False
 
-    def take(self):
+    def take(self, exclusive=False):
         for c in self.cons:
-            c.execute('BEGIN IMMEDIATE')
+            c.execute('BEGIN EXCLUSIVE' if exclusive else 'BEGIN IMMEDIATE')
         self.held = True
 
     def release(self):
@@ -165,6 +165,10 @@ def run_case(dc, sc, res, label, make, dirs_of, call, fault, retry, timeout, exp
         before = snapshot(dirs_of(d))
         if mode in ('before', 'release_after'):
             holder.take()
+        elif mode == 'before_exclusive':
+            # (an exclusive lock - what every writer of a rollback-journal database holds during its COMMIT, and VACUUM
+            # all along - keeps readers out as well)
+            holder.take(exclusive=True)
         probe.watch(d)
         probe.set_controller(ctrl)
 
@@ -198,6 +202,8 @@ def run_case(dc, sc, res, label, make, dirs_of, call, fault, retry, timeout, exp
         else:
             got = invoke()
         probe.set_controller(None)
+        if mode == 'before_exclusive':
+            holder.release()          # (the observer below reads the database, too)
         still_held = holder.held
         res.count('evaluations')
         res.seen('cases', (cls, label, fault, retry, timeout))
@@ -445,6 +451,15 @@ def cases(dc, journal='wal'):
         for k in (2, 3):
             yield ('FanoutCache', label + ' (lock taken after the first batch)', mk_fan_bulk, fan2_dirs, call,
                    ('at_begin', k, 2), False, 0, 'fan_total')
+    if journal != 'wal':
+        # lookups through the sharded and the Django front ends while the database cannot even be read: they hand back
+        # the default like any other call that could not be served, they do not raise
+        for timeout in (0, 0.01):
+            for label, call in {'get file': lambda f, r: f.get('f', 'D'), 'get inline': lambda f, r: f.get('s', 'D'),
+                                'get missing': lambda f, r: f.get('nope', 'D'),
+                                'get with expire_time': lambda f, r: f.get('s', 'D', expire_time=True)[0]}.items():
+                yield ('FanoutCache', label + ' (database locked exclusively)', mk_fan, fan_dirs, call,
+                       ('before_exclusive', None, 1), False, timeout, 'report:D')
     fan_wait = {
         'setitem': lambda f, r: f.__setitem__('x', BIG),
         'delitem': lambda f, r: f.__delitem__('f'),
